@@ -370,13 +370,14 @@ def external_request(which):
         # simplification meets a variable-free sub-expression that is undefined: its fold fails and is abandoned
         return A.outcome(lambda: Partial(smx.Multiply(smx.Add(smx.Logarithm(smx.Constant(-1)), smx.Constant(2)), X), "x").as_expression())
     if which == "beyond-the-recursion-limit":
-        # a sum of 1200 terms written with +: deeper than the interpreter's recursion limit, so every route answers
-        # RecursionError -- unless an earlier call left interpreter-wide settings changed
+        # a sum of 700 terms written with +: the forward rule needs two frames per level, more than the interpreter's
+        # recursion limit allows, so a late Partial answers RecursionError -- unless an earlier call left
+        # interpreter-wide settings changed
         e = X
-        for _ in range(1200):
+        for _ in range(700):
             e = e + X
         outs = []
-        for thunk in (lambda: e.at(Point(x=0.5)), lambda: Partial(e, "x").at(Point(x=0.5))):
+        for thunk in (lambda: Partial(e, "x").at(Point(x=0.5)), lambda: Derivative(e).at(0.5)):
             o = A.outcome(thunk)
             outs.append(repr(o[1]) if o[0] == "val" else "/".join(str(u) for u in o[:2]))
         return ("text", "; ".join(outs))
@@ -598,9 +599,15 @@ class LibraryGlobals:
         self.slots = uniq
 
     def capture(self):
-        return {f"{getattr(o, '__name__', o)}.{a}": clone(getattr(o, a)) for o, a in self.slots}
+        snap = {f"{getattr(o, '__name__', o)}.{a}": clone(getattr(o, a)) for o, a in self.slots}
+        import sys as _sys
+        snap["<interpreter>.recursionlimit"] = _sys.getrecursionlimit()     # interpreter-wide settings a library could touch
+        return snap
 
     def restore(self, snap):
+        import sys as _sys
+        if _sys.getrecursionlimit() != snap.get("<interpreter>.recursionlimit", _sys.getrecursionlimit()):
+            _sys.setrecursionlimit(snap["<interpreter>.recursionlimit"])
         for o, a in self.slots:
             cur = getattr(o, a)
             val = clone(snap[f"{getattr(o, '__name__', o)}.{a}"])
@@ -821,7 +828,7 @@ def show_op(spec, op):
     if k == "ext":
         return {"failing-fold": "Partial(Multiply(Add(Logarithm(Constant(-1)), Constant(2)), x), 'x').as_expression()   (fresh expression; its constant fold fails)",
                 "non-finite-results": "x*y, x+x, x-y, y/x, 1/x, x*y-y*x, 0*(x*y) on fresh expressions at points where doubles overflow (inf / nan results)",
-                "beyond-the-recursion-limit": "x + x + ... + x (1200 terms, fresh): at(Point) and Partial.at   (deeper than the recursion limit)"}[op[1]]
+                "beyond-the-recursion-limit": "x + x + ... + x (700 terms, fresh): late Partial.at and Derivative.at   (beyond the recursion limit for the forward rule)"}[op[1]]
     if k == "Df.at.keep":
         return f"kept = {op[1]}.at({P(op[2])})"
     if k == "new":
